@@ -18,14 +18,16 @@ import (
 	"encoding/json"
 	"fmt"
 	"os"
+	"path/filepath"
 	"reflect"
 	"runtime"
 	"runtime/debug"
-	"runtime/metrics"
 	"sort"
 	"strconv"
 	"strings"
+	"sync"
 	"sync/atomic"
+	"syscall"
 	"testing"
 	"time"
 
@@ -44,7 +46,8 @@ type unit struct {
 }
 
 const (
-	limitSmall = 8 << 20   // cases over inputs of a few bytes or a few kilobytes (real need: tens of kilobytes)
+	limitSmall = 8 << 20   // consensus artefacts of a few kilobytes (real need: some hundred kilobytes per case)
+	limitTiny  = 2 << 20   // cases over inputs of a few bytes (real need: kilobytes)
 	limitLarge = 768 << 20 // long-form family, untyped check: inputs up to 64 KiB, six decodings and reference trees per case
 	stuckAfter = 10 * time.Minute
 )
@@ -69,6 +72,7 @@ type worker struct {
 	a         *acc
 	thorough  bool
 	unitIx    int
+	pos       int // index of the unit in the shard's own sequence
 	seq       atomic.Uint64
 	limit     atomic.Uint64
 	cur       atomic.Pointer[curCase]
@@ -78,6 +82,28 @@ type worker struct {
 	maxAlloc  uint64
 	onRunaway func(unit int, c *curCase, allocated uint64)
 	isWorker  bool
+	cleanKeys map[string]bool // pick keys seen in cases that returned
+	// write-ahead log for fatal crashes (out of memory, stack overflow): always the unit, in careful mode
+	// (after a crash in that unit) every case with its description
+	progress    *os.File
+	careful     bool
+	skipOffsets map[int]bool // cases of the current unit known to kill the process
+}
+
+// mark records the position in the progress file.
+func (w *worker) mark(pos int, c *curCase) {
+	if w.progress == nil {
+		return
+	}
+	rec := map[string]interface{}{"pos": pos, "offset": -1}
+	if c != nil {
+		sc, id, detail := c.desc()
+		rec = map[string]interface{}{"pos": pos, "offset": c.offset, "scenario": sc, "case": id, "keys": c.keys, "detail": detail}
+	}
+	b, _ := json.Marshal(rec)
+	b = append(b, '\n')
+	w.progress.Truncate(0)
+	w.progress.WriteAt(b, 0)
 }
 
 // begin announces case #offset of the current unit. It returns false when the case is quarantined.
@@ -88,48 +114,49 @@ func (w *worker) begin(offset int, keys []string, desc func() (string, string, m
 			return false
 		}
 	}
-	w.cur.Store(&curCase{offset, keys, desc})
+	if w.skipOffsets[offset] {
+		w.skipped++
+		return false
+	}
+	c := &curCase{offset, keys, desc}
+	w.cur.Store(c)
 	w.seq.Add(1)
+	if w.careful {
+		w.mark(w.pos, c)
+	}
 	return true
 }
 
+// watchdog: exact allocation figures (runtime.ReadMemStats) every few milliseconds. base is taken the
+// first time a case is observed, i.e. at or after its start, so "now-base" never overstates what the case
+// allocated; a descheduled checker does not allocate. A case is reported when it is still the running
+// case and has allocated more than the limit of its unit.
 func (w *worker) watchdog() {
-	samples := []metrics.Sample{{Name: "/gc/heap/allocs:bytes"}}
+	var ms runtime.MemStats
 	var lastSeq, base uint64
 	since := time.Now()
-	for {
-		time.Sleep(300 * time.Microsecond)
-		metrics.Read(samples)
-		now := samples[0].Value.Uint64()
+	parent := os.Getppid()
+	for tick := 0; ; tick++ {
+		time.Sleep(3 * time.Millisecond)
+		if tick%64 == 0 && w.isWorker && os.Getppid() != parent {
+			os.Exit(3) // the parent is gone: never linger
+		}
 		seq := w.seq.Load()
+		if seq == 0 {
+			continue
+		}
+		runtime.ReadMemStats(&ms)
+		now := ms.TotalAlloc
+		if os.Getenv("VERIF_C11_WDEBUG") != "" && tick%100 == 0 {
+			fmt.Fprintf(os.Stderr, "wd: tick=%d seq=%d last=%d now=%d base=%d limit=%d\n", tick, seq, lastSeq, now, base, w.limit.Load())
+		}
 		if seq != lastSeq {
 			lastSeq, base, since = seq, now, time.Now()
 			continue
 		}
-		if seq == 0 {
-			continue
-		}
-		if lim := w.limit.Load(); lim > 0 && now-base > lim {
-			// The counter above lags (per-P statistics are flushed in steps) and the checking thread may
-			// simply be descheduled. Confirm with exact figures: the same case must still be running and
-			// must keep allocating over three further observation windows.
-			confirmed := true
-			var ms runtime.MemStats
-			runtime.ReadMemStats(&ms)
-			prev := ms.TotalAlloc
-			for k := 0; k < 3 && confirmed; k++ {
-				time.Sleep(15 * time.Millisecond)
-				runtime.ReadMemStats(&ms)
-				if w.seq.Load() != seq || ms.TotalAlloc-prev < 64<<10 {
-					confirmed = false
-				}
-				prev = ms.TotalAlloc
-			}
-			if confirmed && w.limit.Load() == lim {
-				w.onRunaway(w.unitIx, w.cur.Load(), now-base)
-				select {}
-			}
-			lastSeq = 0 // start over
+		if lim := w.limit.Load(); lim > 0 && now-base > lim && w.seq.Load() == seq {
+			w.onRunaway(w.unitIx, w.cur.Load(), now-base)
+			select {}
 		}
 		if time.Since(since) > stuckAfter {
 			c := w.cur.Load()
@@ -137,6 +164,12 @@ func (w *worker) watchdog() {
 			ev.Broken("case %s %s (unit %d offset %d) did not return within %v and does not allocate", sc, id, w.unitIx, c.offset, stuckAfter)
 		}
 	}
+}
+
+// hardCap limits the address space of a worker so that a missed runaway kills the worker, not the machine.
+func hardCap() {
+	lim := syscall.Rlimit{Cur: 6 << 30, Max: 6 << 30}
+	syscall.Setrlimit(syscall.RLIMIT_AS, &lim)
 }
 
 // ---- the unit list (identical in the parent and in every worker) ---------------------------------------
@@ -224,9 +257,6 @@ func (tc *typedCase) keys() []string {
 	if form == "s2" || form == "s3" {
 		form = "s"
 	}
-	if form == "slice" || form == "array" {
-		form = "seq"
-	}
 	var out []string
 	for _, p := range tc.picks {
 		k := fmt.Sprintf("pick:%s:%s#%d", form, p.k.name, p.i)
@@ -246,11 +276,20 @@ func buildPlant(thorough bool, only func(string) bool) *plant {
 		}
 	}
 	defer lapT("plant done")
+	// units are collected per phase and put in this order (the cheap allocation phase early, so that a
+	// deadline never cuts it off)
+	order := []string{"typed", "consensus", "alloc", "bytes", "family", "pairs"}
+	byPhase := map[string][]unit{}
 	add := func(u unit) {
 		if only(u.phase) {
-			p.units = append(p.units, u)
+			byPhase[u.phase] = append(byPhase[u.phase], u)
 		}
 	}
+	defer func() {
+		for _, ph := range order {
+			p.units = append(p.units, byPhase[ph]...)
+		}
+	}()
 
 	// typed lattices
 	groups, nTop, nPairs, nSeq := typedGroups()
@@ -259,7 +298,7 @@ func buildPlant(thorough bool, only func(string) bool) *plant {
 	p.stats["typed_pair_cases"] = int64(nPairs)
 	p.stats["typed_seq_cases"] = int64(nSeq)
 	for _, g := range groups {
-		add(unit{phase: "typed", limit: limitSmall, run: func(w *worker, from int) {
+		add(unit{phase: "typed", limit: limitTiny, run: func(w *worker, from int) {
 			cases := g.gen()
 			for i := from; i < len(cases); i++ {
 				tc := cases[i]
@@ -269,6 +308,9 @@ func buildPlant(thorough bool, only func(string) bool) *plant {
 					continue
 				}
 				w.a.do(func() outcome { return checkTyped(tc) })
+				for _, k := range tc.keys() {
+					w.cleanKeys[k] = true // this pick took part in a case that returned
+				}
 			}
 		}})
 	}
@@ -331,7 +373,7 @@ func buildPlant(thorough bool, only func(string) bool) *plant {
 	const block = 2048
 	for lo := int64(0); lo < sp.total; lo += block {
 		lo := lo
-		add(unit{phase: "bytes", limit: limitSmall, run: func(w *worker, from int) {
+		add(unit{phase: "bytes", limit: limitTiny, run: func(w *worker, from int) {
 			buf := make([]byte, 0, 8)
 			per := len(tgts) + 1
 			for idx := lo; idx < lo+block && idx < sp.total; idx++ {
@@ -397,7 +439,7 @@ func buildPlant(thorough bool, only func(string) bool) *plant {
 	for _, pk := range pairKinds {
 		for lo := int64(0); lo < psp.total; lo += pblock {
 			lo := lo
-			add(unit{phase: "pairs", limit: limitSmall, run: func(w *worker, from int) {
+			add(unit{phase: "pairs", limit: limitTiny, run: func(w *worker, from int) {
 				tg := pairTarget(pk.a, pk.b)
 				buf := make([]byte, 0, 8)
 				if w.quarTarget(tg) {
@@ -421,8 +463,15 @@ func buildPlant(thorough bool, only func(string) bool) *plant {
 				for idx := lo + int64(from); idx < lo+pblock && idx < psp.total; idx++ {
 					pl := psp.at(idx, buf)
 					b = append([]byte{0xc0 + byte(len(pl))}, pl...)
+					if w.skipOffsets[int(idx-lo)] {
+						w.skipped++
+						continue
+					}
 					off.Store(idx - lo)
 					w.seq.Add(1)
+					if w.careful {
+						w.mark(w.pos, cc)
+					}
 					_, re := refrlp.Decode(b)
 					w.targetCase("bytes-to-pair", tg, b, re, "pair")
 				}
@@ -445,13 +494,15 @@ func buildPlant(thorough bool, only func(string) bool) *plant {
 			var batch []allocCase
 			for idx := lo + int64(from); idx < lo+ablock && idx < asp.total; idx++ {
 				b := append([]byte{}, asp.at(idx, buf)...)
-				if len(batch) == 0 {
-					w.begin(int(idx-lo), nil, func() (string, string, map[string]interface{}) {
-						return "alloc", "untyped-batch", map[string]interface{}{"kind": "alloc", "input": hex.EncodeToString(b), "api": "batch of 32 inputs starting here"}
-					})
+				if len(batch) == 0 || w.careful {
+					if !w.begin(int(idx-lo), nil, func() (string, string, map[string]interface{}) {
+						return "alloc", "untyped-batch", map[string]interface{}{"kind": "alloc", "input": hex.EncodeToString(b), "api": "DecodeBytes"}
+					}) {
+						continue
+					}
 				}
 				batch = append(batch, untypedAllocCases(b)...)
-				if len(batch) >= 128 {
+				if len(batch) >= 128 || w.careful {
 					allocBatch("alloc", batch, w.a, &w.maxAlloc)
 					batch = batch[:0]
 				}
@@ -531,7 +582,7 @@ func runStringCase(w *worker, scenario, tscenario string, b []byte, tgts []*targ
 		if base+1+j < from {
 			continue
 		}
-		if w.quarTarget(tg) {
+		if w.quarTarget(tg) || w.skipOffsets[base+1+j] {
 			w.skipped++
 			continue
 		}
@@ -541,6 +592,9 @@ func runStringCase(w *worker, scenario, tscenario string, b []byte, tgts []*targ
 			announced = true
 		}
 		w.seq.Add(1)
+		if w.careful {
+			w.mark(w.pos, cc)
+		}
 		w.targetCase(tscenario, tg, b, refErr, "")
 	}
 }
@@ -622,6 +676,11 @@ func (w *worker) result(done bool, rec *runawayRec, resume shardState) *ev.Worke
 	res.Extra["done"] = done
 	res.Extra["resume"] = resume
 	res.Extra["alloc_max"] = w.maxAlloc
+	ck := make([]string, 0, len(w.cleanKeys))
+	for k := range w.cleanKeys {
+		ck = append(ck, k)
+	}
+	res.Extra["clean_keys"] = ck
 	if rec != nil {
 		res.Extra["runaway"] = rec
 	}
@@ -632,10 +691,11 @@ func workerMain(run *ev.Run, shard, n int) {
 	var states []shardState
 	json.Unmarshal([]byte(os.Getenv("VERIF_C11_STATE")), &states)
 	st := shardState{}
-	if shard < len(states) {
-		st = states[shard]
+	if len(states) > 0 {
+		st = states[0]
 	}
-	w := &worker{a: newAcc(), thorough: run.Thorough(), quar: map[string]bool{}, isWorker: true}
+	hardCap()
+	w := &worker{a: newAcc(), thorough: run.Thorough(), quar: map[string]bool{}, isWorker: true, cleanKeys: map[string]bool{}}
 	var q []string
 	json.Unmarshal([]byte(os.Getenv("VERIF_C11_QUAR")), &q)
 	for _, k := range q {
@@ -658,6 +718,23 @@ func workerMain(run *ev.Run, shard, n int) {
 		rec := &runawayRec{Unit: pos, Offset: c.offset, Scenario: sc, Case: id, Keys: c.keys, Detail: detail, Allocated: allocated}
 		ev.WorkerDone(w.result(false, rec, shardState{Unit: pos, Offset: c.offset + 1}))
 	}
+	carefulPos := -1
+	if v := os.Getenv("VERIF_C11_CAREFUL"); v != "" {
+		carefulPos, _ = strconv.Atoi(v)
+	}
+	skipAt := map[int]map[int]bool{}
+	for _, ps := range strings.Split(os.Getenv("VERIF_C11_SKIP"), ",") {
+		var sp, so int
+		if _, err := fmt.Sscanf(ps, "%d:%d", &sp, &so); err == nil {
+			if skipAt[sp] == nil {
+				skipAt[sp] = map[int]bool{}
+			}
+			skipAt[sp][so] = true
+		}
+	}
+	if pf := os.Getenv("VERIF_C11_PROGRESS"); pf != "" {
+		w.progress, _ = os.OpenFile(pf, os.O_CREATE|os.O_RDWR, 0o644)
+	}
 	go w.watchdog()
 	capped := false
 	for ; pos < len(own); pos++ {
@@ -670,7 +747,15 @@ func workerMain(run *ev.Run, shard, n int) {
 			from = st.Offset
 		}
 		u := p.units[own[pos]]
-		w.unitIx = own[pos]
+		w.unitIx, w.pos = own[pos], pos
+		w.careful = pos == carefulPos
+		w.skipOffsets = skipAt[pos]
+		if w.careful && pos != st.Unit {
+			// hand in what is done so far: a fatal error in the next unit would lose it
+			w.limit.Store(0)
+			ev.WorkerDone(w.result(false, nil, shardState{Unit: pos, Offset: 0}))
+		}
+		w.mark(pos, nil)
 		w.limit.Store(u.limit)
 		u.run(w, from)
 	}
@@ -684,7 +769,9 @@ func workerMain(run *ev.Run, shard, n int) {
 
 // ---- parent ---------------------------------------------------------------------------------------------------
 
-func hittingSet(recs []runawayRec, threshold int) map[string]bool {
+// hittingSet chooses the culprits to quarantine. A pick that also took part in a case that returned
+// cannot be the cause of a runaway on its own and is not eligible.
+func hittingSet(recs []runawayRec, threshold int, clean map[string]bool) map[string]bool {
 	chosen := map[string]bool{}
 	covered := make([]bool, len(recs))
 	for {
@@ -694,7 +781,9 @@ func hittingSet(recs []runawayRec, threshold int) map[string]bool {
 				continue
 			}
 			for _, k := range r.Keys {
-				count[k]++
+				if !clean[k] {
+					count[k]++
+				}
 			}
 		}
 		best, bestN := "", 0
@@ -731,7 +820,11 @@ func TestCheck(t *testing.T) {
 		ev.Broken("refrlp self test: %v", err)
 	}
 	buildKinds()
-	if shard, n, ok := ev.Shard(); ok {
+	if _, _, ok := ev.Shard(); ok {
+		var shard, n int
+		if _, err := fmt.Sscanf(os.Getenv("VERIF_C11_SHARD"), "%d/%d", &shard, &n); err != nil || n <= 0 {
+			ev.Broken("worker without VERIF_C11_SHARD")
+		}
 		workerMain(run, shard, n)
 		return
 	}
@@ -743,7 +836,7 @@ func TestCheck(t *testing.T) {
 	run.Assume("streams are created with a known input length (bytes.Reader or explicit limit); unlimited readers are documented as unbounded")
 	run.Assume("nil pointers without rlp:\"nil\" are documented to encode as the zero/empty value; they are compared after that normalisation, and nil pointers to non-empty byte arrays / structs (whose empty encoding the decoder rejects) are not in the lattice")
 	run.Assume("RawValue targets are documented not to validate content; for them only 'error or byte-identical' is required")
-	run.Assume(fmt.Sprintf("allocation bound: TotalAlloc delta <= %d + %d*len(input) per decoding call, measured on a single goroutine; a case whose allocation exceeds %d MiB (small inputs) is reported as unbounded and not waited for", allocBase, allocPerByte, limitSmall>>20))
+	run.Assume(fmt.Sprintf("allocation bound: TotalAlloc delta <= %d + %d*len(input) per decoding call, measured on a single goroutine; a case whose allocation exceeds %d MiB (small inputs) is reported as unbounded and not waited for", allocBase, allocPerByte, limitTiny>>20))
 	col := &collector{run: run, perGroup: map[string]int{}, seen: map[string]bool{}}
 
 	if d := ev.Replay(); d != nil {
@@ -763,63 +856,139 @@ func TestCheck(t *testing.T) {
 	run.Set("units", len(p.units))
 	deadline := run.Deadline(150*time.Second, 25*time.Minute)
 
+	// One supervising goroutine per shard: it starts the shard's worker process and, when the worker stops
+	// at a runaway case, starts it again behind that case with the current quarantine list (no barrier
+	// between shards). The worker learns its real shard through VERIF_C11_SHARD (ev.RunWorkers(1, ..)
+	// always says 0/1).
 	n := ev.Jobs()
-	states := make([]shardState, n)
-	var runaways []runawayRec
-	quar := map[string]bool{}
-	var allocMax uint64
-	rounds := 0
-	for ; ; rounds++ {
-		if rounds > 400 {
-			ev.Broken("more than 400 worker rounds (%d runaway cases)", len(runaways))
-		}
-		sj, _ := json.Marshal(states)
-		qk := make([]string, 0, len(quar))
-		for k := range quar {
-			qk = append(qk, k)
-		}
-		sort.Strings(qk)
-		qj, _ := json.Marshal(qk)
-		env := []string{"VERIF_C11_STATE=" + string(sj), "VERIF_C11_QUAR=" + string(qj), "VERIF_C11_DEADLINE=" + strconv.FormatInt(deadline.UnixNano(), 10)}
-		roundT := time.Now()
-		results := run.RunWorkers(n, env, nil)
-		fmt.Fprintf(os.Stderr, "c11: round %d took %.1fs (evals so far %d)\n", rounds, time.Since(roundT).Seconds(), run.Evals())
-		allDone := true
-		for i, wr := range results {
-			if wr == nil {
-				ev.Broken("worker %d returned nothing", i)
+	var (
+		mu        sync.Mutex
+		runaways  []runawayRec
+		quar      = map[string]bool{}
+		clean     = map[string]bool{}
+		allocMax  uint64
+		launches  int
+		lastStart time.Time
+		crashes   []runawayRec
+	)
+	var wg sync.WaitGroup
+	for shard := 0; shard < n; shard++ {
+		wg.Add(1)
+		go func(shard int) {
+			defer wg.Done()
+			st := shardState{}
+			careful := -1
+			var skips []string // "pos:offset" of cases that kill the worker
+			for attempt := 0; !st.Done; attempt++ {
+				if attempt > 200 {
+					ev.Broken("shard %d: more than 200 worker starts", shard)
+				}
+				mu.Lock()
+				qk := make([]string, 0, len(quar))
+				for k := range quar {
+					qk = append(qk, k)
+				}
+				sort.Strings(qk)
+				launches++
+				// RunWorkers names its result file after the start time: keep the starts apart
+				if d := time.Since(lastStart); d < 2*time.Millisecond {
+					time.Sleep(2*time.Millisecond - d)
+				}
+				lastStart = time.Now()
+				mu.Unlock()
+				sj, _ := json.Marshal([]shardState{st})
+				qj, _ := json.Marshal(qk)
+				progressFile := filepath.Join(scratchDir(), fmt.Sprintf("c11-progress-%d.json", shard))
+				os.Remove(progressFile)
+				env := []string{"VERIF_C11_STATE=" + string(sj), "VERIF_C11_QUAR=" + string(qj),
+					"VERIF_C11_DEADLINE=" + strconv.FormatInt(deadline.UnixNano(), 10), fmt.Sprintf("VERIF_C11_SHARD=%d/%d", shard, n),
+					"VERIF_C11_PROGRESS=" + progressFile, "VERIF_C11_CAREFUL=" + strconv.Itoa(careful), "VERIF_C11_SKIP=" + strings.Join(skips, ",")}
+				crashOut := ""
+				results := run.RunWorkers(1, env, func(_ int, output string) { crashOut = output })
+				wr := results[0]
+				if wr == nil {
+					// The worker died (fatal runtime error, kill). The progress file names the unit; run that unit
+					// again with a per-case log, then the case that kills the worker is known.
+					var pr struct {
+						Pos      int                    `json:"pos"`
+						Offset   int                    `json:"offset"`
+						Scenario string                 `json:"scenario"`
+						Case     string                 `json:"case"`
+						Keys     []string               `json:"keys"`
+						Detail   map[string]interface{} `json:"detail"`
+					}
+					pb, err := os.ReadFile(progressFile)
+					if err != nil || json.Unmarshal(bytes.TrimSpace(pb), &pr) != nil {
+						ev.Broken("worker of shard %d died without a progress record:\n%s", shard, tailStr(crashOut, 3000))
+					}
+					if pr.Offset < 0 {
+						if careful == pr.Pos {
+							ev.Broken("worker of shard %d died in unit %d outside any case:\n%s", shard, pr.Pos, tailStr(crashOut, 3000))
+						}
+						// results of the units completed by the dead worker are lost: start the unit list of the shard
+						// again from the last reported state, this time careful in the unit that died
+						careful = pr.Pos
+						fmt.Fprintf(os.Stderr, "c11: shard %d: worker died in unit %d, running it again with a per-case log\n", shard, pr.Pos)
+						continue
+					}
+					reason := "worker process died"
+					for _, l := range strings.Split(crashOut, "\n") {
+						if strings.HasPrefix(l, "fatal error:") || strings.HasPrefix(l, "runtime:") && strings.Contains(l, "out of memory") {
+							reason = strings.TrimSpace(l)
+							break
+						}
+					}
+					d := pr.Detail
+					if d == nil {
+						d = map[string]interface{}{}
+					}
+					d["what"] = "the process was killed by a fatal runtime error while this case was running: " + reason
+					d["case"] = pr.Case
+					mu.Lock()
+					crashes = append(crashes, runawayRec{Unit: pr.Pos, Offset: pr.Offset, Scenario: pr.Scenario, Case: pr.Case, Keys: pr.Keys, Detail: d})
+					runaways = append(runaways, crashes[len(crashes)-1])
+					quar = hittingSet(runaways, 3, clean)
+					mu.Unlock()
+					fmt.Fprintf(os.Stderr, "c11: shard %d: %s kills the worker (%s)\n", shard, pr.Case, reason)
+					// run the unit again from where it was started, without the fatal case
+					skips = append(skips, fmt.Sprintf("%d:%d", pr.Pos, pr.Offset))
+					careful = pr.Pos
+					continue
+				}
+				raw, _ := json.Marshal(wr.Extra)
+				var ex struct {
+					Viols    []viol      `json:"viols"`
+					Done     bool        `json:"done"`
+					Resume   shardState  `json:"resume"`
+					Runaway  *runawayRec `json:"runaway"`
+					AllocMax uint64      `json:"alloc_max"`
+					Clean    []string    `json:"clean_keys"`
+				}
+				if err := json.Unmarshal(raw, &ex); err != nil {
+					ev.Broken("worker of shard %d: bad result: %v", shard, err)
+				}
+				a := newAcc()
+				a.viols = ex.Viols
+				col.merge(a)
+				mu.Lock()
+				if ex.AllocMax > allocMax {
+					allocMax = ex.AllocMax
+				}
+				for _, k := range ex.Clean {
+					clean[k] = true
+				}
+				if ex.Runaway != nil {
+					runaways = append(runaways, *ex.Runaway)
+					fmt.Fprintf(os.Stderr, "c11: shard %d start %d: runaway %s %s (%d KiB)\n", shard, attempt, ex.Runaway.Scenario, ex.Runaway.Case, ex.Runaway.Allocated>>10)
+					quar = hittingSet(runaways, 3, clean)
+				}
+				mu.Unlock()
+				st = ex.Resume
+				st.Done = ex.Done
 			}
-			raw, _ := json.Marshal(wr.Extra)
-			var ex struct {
-				Viols    []viol      `json:"viols"`
-				Done     bool        `json:"done"`
-				Resume   shardState  `json:"resume"`
-				Runaway  *runawayRec `json:"runaway"`
-				AllocMax uint64      `json:"alloc_max"`
-			}
-			if err := json.Unmarshal(raw, &ex); err != nil {
-				ev.Broken("worker %d: bad result: %v", i, err)
-			}
-			a := newAcc()
-			a.viols = ex.Viols
-			col.merge(a)
-			if ex.AllocMax > allocMax {
-				allocMax = ex.AllocMax
-			}
-			states[i] = ex.Resume
-			if ex.Runaway != nil {
-				runaways = append(runaways, *ex.Runaway)
-				fmt.Fprintf(os.Stderr, "c11: round %d shard %d: runaway %s %s (%d MiB)\n", rounds, i, ex.Runaway.Scenario, ex.Runaway.Case, ex.Runaway.Allocated>>20)
-			}
-			if !ex.Done {
-				allDone = false
-			}
-		}
-		if allDone {
-			break
-		}
-		quar = hittingSet(runaways, 3)
+		}(shard)
 	}
+	wg.Wait()
 	// runaway cases become violations, named after the quarantined culprit when there is one
 	for _, r := range runaways {
 		culprit := ""
@@ -829,8 +998,16 @@ func TestCheck(t *testing.T) {
 				break
 			}
 		}
-		if culprit == "" && len(r.Keys) == 1 {
-			culprit = r.Keys[0]
+		if culprit == "" {
+			var cand []string
+			for _, k := range r.Keys {
+				if !clean[k] {
+					cand = append(cand, k)
+				}
+			}
+			if len(cand) == 1 {
+				culprit = cand[0]
+			}
 		}
 		id := r.Case
 		if culprit != "" {
@@ -842,11 +1019,17 @@ func TestCheck(t *testing.T) {
 		}
 		d["allocated_when_stopped"] = r.Allocated
 		d["case"] = r.Case
-		d["what"] = "the call did not return and kept allocating; stopped by the watchdog"
+		oracle := "bounded-allocation"
+		if r.Allocated == 0 {
+			oracle = "no-fatal-error"
+		} else {
+			d["what"] = "the call did not return and kept allocating; stopped by the watchdog"
+		}
 		a := newAcc()
-		a.viols = []viol{{Scenario: r.Scenario, Oracle: "bounded-allocation", CaseID: id, Detail: d}}
+		a.viols = []viol{{Scenario: r.Scenario, Oracle: oracle, CaseID: id, Detail: d}}
 		col.merge(a)
 	}
+	run.Set("fatal_cases", len(crashes))
 	if len(quar) > 0 {
 		qk := make([]string, 0, len(quar))
 		for k := range quar {
@@ -857,13 +1040,27 @@ func TestCheck(t *testing.T) {
 		run.Cap("cases containing a quarantined culprit were skipped after three runaway cases each: " + strings.Join(qk, " "))
 	}
 	run.Set("runaway_cases", len(runaways))
-	run.Set("worker_rounds", rounds+1)
+	run.Set("worker_starts", launches)
 	run.Set("alloc_max_individually_measured", allocMax)
 	run.Set("violations_not_forwarded_same_group", col.dropped)
 	run.Sample(map[string]interface{}{"phase": "bytes", "input": "c3c0c1c0", "apis": "DecodeBytes, Stream.Decode loop, Stream walk, Raw, Split*, CountValues, then every typed target"})
 	run.Sample(map[string]interface{}{"phase": "typed", "spec": "s3|b1#0|u64#1", "case": "A=b1:00|B=u64:1|s3 = struct{A [1]byte; B uint64; Z uint64}{{0},1,0x55}"})
 	run.Sample(map[string]interface{}{"phase": "family", "id": p.fam[len(p.fam)/3].id})
 	run.Finish()
+}
+
+func scratchDir() string {
+	if d := os.Getenv("VERIF_SCRATCH"); d != "" {
+		return d
+	}
+	return os.TempDir()
+}
+
+func tailStr(s string, n int) string {
+	if len(s) > n {
+		return s[len(s)-n:]
+	}
+	return s
 }
 
 // keyLabel turns a quarantine key into the case-id form used by the other oracles
@@ -887,7 +1084,7 @@ func keyLabel(key string) string {
 // ---- replay --------------------------------------------------------------------------------------------------
 
 func replay(run *ev.Run, col *collector, d *ev.ReplayDoc) {
-	w := &worker{a: newAcc(), quar: map[string]bool{}}
+	w := &worker{a: newAcc(), quar: map[string]bool{}, cleanKeys: map[string]bool{}}
 	w.onRunaway = func(_ int, c *curCase, allocated uint64) {
 		fmt.Fprintf(os.Stderr, "replay: the call did not return; %d MiB allocated\n", allocated>>20)
 		run.Violate(viol{Scenario: d.Scenario, Oracle: "bounded-allocation", CaseID: d.CaseID, Detail: d.Detail})
